@@ -218,14 +218,14 @@ Proof.
   - (* the handle is kept *)
     split; [|split; [|split; [|split]]].
     + intros r' t' i' [E|Hin']. 
-      * inversion E; subst. exists oi. rewrite Hl. repeat split; auto.
+      * injection E as <- <- <-. exists oi. rewrite Hl. repeat split; auto.
       * eapply held_ext; eauto.
     + cbn [map snd]. constructor; auto. intros Hmem. apply in_map_iff in Hmem.
       destruct Hmem as [[[r' t'] i'] [E Hin']]. cbn [snd] in E. subst i'.
       destruct (H1 r' t' i Hin') as [o [Ho [Hor [Hot _]]]].
       destruct (OLD o Ho) as [Or Ol]. subst r'. rewrite Ol, T in Hot. inversion Hot; subst t'.
       pose proof (H3 _ _ _ Hin'). congruence.
-    + intros r' t' i' [E|Hin']; [inversion E; subst; exact CT|apply MONO; eauto].
+    + intros r' t' i' [E|Hin']; [injection E as <- <- <-; exact CT|apply MONO; eauto].
     + intros r' t' C. destruct (CASES r' t' C) as [C'|[-> ->]].
       * destruct (H4 _ _ C') as [i' Hi']. exists i'. right. auto.
       * exists i. left. auto.
@@ -317,12 +317,12 @@ Proof.
   - unfold rget_layer. destruct (cached (base s) r t); auto.
     destruct (loadref w (base s) r mf) as [b1|] eqn:L; auto.
     apply rfold_inv. apply rinv_same_layers; auto. destruct (loadref_same _ _ _ _ _ L) as (L1 & _). auto.
-  - apply rinv_same_layers; auto. apply step_layers_same. exact I.
-  - apply rinv_same_layers; auto. apply step_layers_same. exact I.
+  - apply rinv_same_layers; [apply step_layers_same; exact Logic.I|exact I].
+  - apply rinv_same_layers; [apply step_layers_same; exact Logic.I|exact I].
   - apply rrelease_inv. auto.
-  - apply rinv_same_layers; auto. apply step_layers_same. exact I.
+  - apply rinv_same_layers; [apply step_layers_same; exact Logic.I|exact I].
   - destruct (mem l (image w r)); auto. apply rresolve1_inv. auto.
-  - apply rinv_same_layers; auto. apply step_layers_same. exact I.
+  - apply rinv_same_layers; [apply step_layers_same; exact Logic.I|exact I].
   - (* Expire *)
     destruct I as (H1 & H2 & H3 & H4 & H5).
     assert (L : layers (fst (step Fixed w (base s) (Expire r l))) = layers (base s)) by reflexivity.
